@@ -248,6 +248,121 @@ func c28run(run int, mode string, seed uint64, writesPerNode int) (o c28obs) {
 	return
 }
 
+// c28burst: many monitored nodes, all added in one AddNodeIDs (a burst of initial-value notifications), then the
+// application updates every node back to back on the server side (NodeNameSpace.SetAttribute in a loop, a scan-cycle
+// style refresh), several rounds, then silence.
+func c28burst(run int, seed uint64, nn, rounds int) (o c28obs) {
+	o = c28obs{Kind: "c28", Run: run, Mode: "burst", Nodes: nn, Writes: make([][]int64, nn)}
+	defer func() {
+		if r := recover(); r != nil {
+			o.Err = fmt.Sprintf("PANIC: %v", r)
+		}
+	}()
+	ts, err := startServer([]secPair{{"None", ua.MessageSecurityModeNone}}, nil, nn)
+	if err != nil {
+		o.Err = err.Error()
+		return
+	}
+	defer ts.Close()
+	ctx, cancel := context.WithTimeout(context.Background(), 90*time.Second)
+	defer cancel()
+	if _, err := getEndpoints(ctx, ts.URL); err != nil {
+		o.Err = err.Error()
+		return
+	}
+	mc, err := plainClient(ctx, ts.URL, opcua.RequestTimeout(20*time.Second), opcua.AutoReconnect(false))
+	if err != nil {
+		o.Err = err.Error()
+		return
+	}
+	defer mc.Close(context.Background())
+	idx := map[string]int{}
+	for i, n := range ts.Nodes {
+		idx[n.String()] = i
+	}
+	var mu sync.Mutex
+	var errs atomic.Int64
+	nm, _ := monitor.NewNodeMonitor(mc)
+	nm.SetErrorHandler(func(_ *opcua.Client, _ *monitor.Subscription, err error) { errs.Add(1) })
+	sub, err := nm.Subscribe(ctx, &opcua.SubscriptionParameters{Interval: 2 * time.Millisecond},
+		func(_ *monitor.Subscription, m *monitor.DataChangeMessage) {
+			d := c28deliv{Node: -1, Value: -1}
+			if m.Error != nil || m.NodeID == nil {
+				d.Node = -2
+			} else {
+				if i, ok := idx[m.NodeID.String()]; ok {
+					d.Node = i
+				}
+				if m.DataValue != nil && m.DataValue.Value != nil {
+					if v, ok := m.DataValue.Value.Value().(int64); ok {
+						d.Value = v
+					}
+				}
+			}
+			mu.Lock()
+			o.Deliv = append(o.Deliv, d)
+			mu.Unlock()
+		})
+	if err != nil {
+		o.Err = "subscribe: " + err.Error()
+		return
+	}
+	ndeliv := func() int { mu.Lock(); defer mu.Unlock(); return len(o.Deliv) }
+	quiesce := func() {
+		last, lastChange := ndeliv(), time.Now()
+		deadline := time.Now().Add(6 * time.Second)
+		for time.Now().Before(deadline) {
+			time.Sleep(10 * time.Millisecond)
+			if n := ndeliv(); n != last {
+				last, lastChange = n, time.Now()
+			} else if time.Since(lastChange) > 200*time.Millisecond {
+				return
+			}
+		}
+	}
+	for i := 0; i < nn; i++ {
+		o.AddedAt = append(o.AddedAt, [2]int{i, 0})
+		o.Monitored = append(o.Monitored, i)
+	}
+	if err := sub.AddNodeIDs(ctx, ts.Nodes...); err != nil {
+		o.Err = "add: " + err.Error()
+		return
+	}
+	quiesce()
+	r := rng.New(seed)
+	for round := 1; round <= rounds; round++ {
+		start := r.Intn(nn)
+		for k := 0; k < nn; k++ {
+			i := (start + k) % nn
+			v := int64(i+1)*1_000_000 + int64(round)
+			dv := &ua.DataValue{EncodingMask: ua.DataValueValue, Value: ua.MustVariant(v)}
+			if st := ts.NS.SetAttribute(ts.Nodes[i], ua.AttributeIDValue, dv); st == ua.StatusOK {
+				o.Writes[i] = append(o.Writes[i], v)
+			}
+		}
+		quiesce()
+	}
+	for i := 0; i < nn; i += 25 {
+		j := i + 25
+		if j > nn {
+			j = nn
+		}
+		vs, err := readMany(ctx, mc, ts.Nodes[i:j])
+		if err != nil {
+			o.Err = "final read: " + err.Error()
+			return
+		}
+		o.Final = append(o.Final, vs...)
+	}
+	o.Dropped = sub.Dropped()
+	o.Errors = int(errs.Load())
+	mu.Lock()
+	o.Deliv = append([]c28deliv(nil), o.Deliv...)
+	mu.Unlock()
+	sub.Unsubscribe(ctx)
+	return
+}
+
 func c28(seed uint64, runs, writesPerNode int) {
 	quietLogs()
 	r := rng.New(seed)
@@ -255,6 +370,10 @@ func c28(seed uint64, runs, writesPerNode int) {
 		mode := "callback"
 		if i == runs-1 && runs > 1 {
 			mode = "slowchan"
+		}
+		if i%3 == 1 && mode == "callback" {
+			emit(c28burst(i, r.U64(), 200, 3))
+			continue
 		}
 		emit(c28run(i, mode, r.U64(), writesPerNode))
 	}
